@@ -437,13 +437,21 @@ def random_pair(tape, clock, debug=False):
     R.fill_outcomes(tape, run, spec)
     if tape.draw(8) == 7:
         spec.body.append(['raise', R.D.ErrB])
+    if tape.draw(12) == 11:
+        # the recorded run was cut short before its first interception: a saved recording without a single entry
+        spec = copy.copy(spec)
+        full_body = spec.body
+        spec.body = [['interrupt']]
+        run.probe('replay_of_a_recording_without_entries')
+    else:
+        full_body = None
     spec2 = copy.copy(spec)
     spec2.inputs = [copy.copy(i) for i in spec.inputs]
     for i in spec2.inputs:
         i.pool = list(i.pool)
         i.outcomes = dict(i.outcomes)
     spec2.outputs = [copy.copy(o) for o in spec.outputs]
-    spec2.body = [list(st) for st in spec.body if st[0] != 'raise']
+    spec2.body = [list(st) for st in (full_body if full_body is not None else spec.body) if st[0] not in ('raise', 'interrupt')]
     opts = {'in': {}, 'out': {}}
     short_used = []
     for i in spec2.inputs:
